@@ -96,4 +96,22 @@ def hasStale (progs : List (List Op)) : Bool :=
 def specOK (custom : Bool) (progs : List (List Op)) (tr : List Ev) : Bool :=
   (orderMonitor progs tr).ok && (deliveryMonitor custom progs tr).ok
 
+/-! ### stress histories (no conductor): the end-state reading of the same clauses
+
+After all loggers have stopped and a final `FlushBuffer` has returned, the output of goroutine `g`, which
+logged `n` accepted records, must be 0, 1, …, n-1: each exactly once, in order, none missing. The harness
+ships the output run-length encoded: maximal stretches `(start, len)` of consecutive sequence numbers. -/
+
+def expandRuns : List (Nat × Nat) → List Nat
+  | [] => []
+  | (start, len) :: rest => (List.range len).map (start + ·) ++ expandRuns rest
+
+def stressOK (logged : List Nat) (runs : List (List (Nat × Nat))) : Bool :=
+  logged.length == runs.length &&
+  (logged.zip runs).all fun nr => if nr.1 == 0 then nr.2.isEmpty else nr.2 == [(0, nr.1)]
+
+/-- what the repaired logger must produce -/
+def stressExpected (logged : List Nat) : List (List (Nat × Nat)) :=
+  logged.map fun n => if n == 0 then [] else [(0, n)]
+
 end Rivaas.LogBuf
